@@ -447,7 +447,10 @@ def shrink(ck: Check, pool, case, which: int):
 def describe(config, history, obs, nfs) -> str:
     rows = []
     for t, (s, o) in enumerate(zip(history, obs), start=1):
-        rows.append(f"t{t}: present={''.join('1' if x else '0' for x in o['present_b'])} routine={o['rout']} -> {o['out']} counters={o['cnts']}")
+        nonfin = "" if all(all(r) for r in o["fins"]) else f" STORED-NONFINITE={o['fins']}"
+        fmnf = "" if all(all(r) for r in o["fmf"]) else f" factor-matrix-finite={o['fmf']}"
+        rows.append(f"t{t}: present={''.join('1' if x else '0' for x in o['present_b'])} routine={o['rout']}{fmnf} -> {o['out']} counters={o['cnts']} "
+                    f"stored-tokens={o['toks']}{nonfin} params-changed={''.join('1' if x else '0' for x in o['pchg'])}")
     return f"{config['kind']} N={config['N']} freq={config['freq']} start={config['start']} nfs={nfs}: " + " | ".join(rows)
 
 
